@@ -43,8 +43,16 @@ def str_constant(kinds):
     return {k: {n: symbols(k, n) for n in PROCS + TAGS[1:]} for k in kinds}
 
 
+class _Other:
+    def method(self):
+        pass
+
+
+@plumpy.auto_persist('_hook')
 class StepProc(mixins.ContextMixin, plumpy.Process):
-    """A process that never finishes by itself; step i leaves a visible trace in mutable and immutable members."""
+    """A process that never finishes by itself; step i leaves a visible trace in mutable and immutable members.
+    `_hook` is a persisted member: while it holds a bound method of ANOTHER object the process cannot be saved."""
+    _hook = None
 
     @classmethod
     def define(cls, spec):
@@ -155,6 +163,12 @@ class World:
         for per in (self.mem, self.files):
             if name == 'save':
                 r = self.call(lambda: per.save_checkpoint(self.live[p], self.tag(t)))
+            elif name == 'savefail':
+                self.live[p]._hook = _Other().method          # transiently unsavable (TypeError in save_members)
+                try:
+                    r = self.call(lambda: per.save_checkpoint(self.live[p], self.tag(t)))
+                finally:
+                    self.live[p]._hook = None
             elif name == 'load':
                 r = self.call(lambda: per.load_checkpoint(self.pid(p), self.tag(t)))
             elif name == 'list':
